@@ -90,7 +90,8 @@ CHECKS = {
          "Node.tla: TLC checks FinalMonotone, FinalizedIrreversible and FinalSane as action/state properties over valid blocks, LIP-0014 tie breaks, deletes (incl. at or below the finalized height) and restarts (exhaustive with a VIEW for chains <= 5-6 blocks, simulation beyond); "
          "the scripts are replayed on the real Executer comparing the stored finalized height, the finalize events and the refusal to remove or replace finalized tips after every step. Sync scenarios (fast sync, block sync, corrupting and truncating peers, failed sync) on real "
          "networked nodes are validated by SyncTrace.tla: the finalized height never decreases and the block ids served for finalized heights never change. Reverts down to the finalized height (DeleteDown: what a sync with a chain forking below it attempts) "
-         "are generated and the refusal at the finalized height checked; Net.tla (network of honest nodes) is replayed on real nodes: the stored finalized height per node follows the model and finalized ids are never replaced.",
+         "are generated and the refusal at the finalized height checked; Net.tla (network of honest nodes) is replayed on real nodes: the stored finalized height per node follows the model and finalized ids are never replaced. "
+         "Same step: every file-system operation of the application of a finality-raising block is used as a crash point (Crash.tla / CrashTrace.tla, pebble strict in-memory fs): after the restart the marker has moved with the block or not at all.",
          "Toy application; 3 validators; scenarios sampled (seeded); invalid tie-break competitors are probed at the end of every script (TieProbes).",
          "TLC model checking of Node.tla + replay of TLC scripts on the real Executer + TLA+ trace monitor of real sync scenarios", "DESIGN.md section 4 C04"),
  "C19": ("model_checking",
